@@ -243,3 +243,16 @@ func vpCheckOccupancy(r *Region, sectors int) {
 		vp.Assert(r.sectors[s] == want, "in-memory sector map == occupancy described by the header")
 	}
 }
+
+// vpMemFileTrunc is a file like *os.File: WriteAt and Truncate as well.
+type vpMemFileTrunc struct{ vpMemFileAt }
+
+func (f *vpMemFileTrunc) Truncate(size int64) error {
+	if int(size) < len(f.b) {
+		f.b = f.b[:size]
+	}
+	for int(size) > len(f.b) {
+		f.b = append(f.b, 0)
+	}
+	return nil
+}
